@@ -516,11 +516,16 @@ def check_dispatch(ctx, lib):
         if ve0 and "Lparen" in ve0["edges"]:
             arm = only_via(b, (blk0, ve0["edges"]["Lparen"]))
             ok = False
+            # the first case analysis of the left operand in the arm (drop elaboration re-tests the same value later)
+            cands = []
             for blk in sorted(arm):
                 ve = br.variant_edges(blk)
                 if ve and ve["adt"] == AST and all(term_mentions(s, lambda y: y == ("param", 2)) for s in ve["scrutinee"]):
-                    ok = set(ve["edges"]) == {"Field"} and err_only(b, only_via(b, (blk, ve["otherwise"]))) and \
-                        not err_only(b, only_via(b, (blk, ve["edges"]["Field"])))
+                    cands.append((len(b.dominators().get(blk, ())), blk, ve))
+            if cands:
+                _, blk, ve = min(cands, key=lambda c: (c[0], c[1]))
+                ok = set(ve["edges"]) == {"Field"} and err_only(b, only_via(b, (blk, ve["otherwise"]))) and \
+                    not err_only(b, only_via(b, (blk, ve["edges"]["Field"])))
             ctx.check(ok, rule, "led:call-needs-field", "'(' after a left operand is a call only if that operand is a Field; otherwise an error", b.span)
     # nud: quoted identifier followed by '(' is an error; '[' dispatch
     b = ctx.fn(P + "nud", rule=rule)
